@@ -9,6 +9,7 @@ pub mod c10;
 pub mod c12;
 pub mod c13;
 pub mod c14;
+pub mod c15;
 pub mod c16;
 pub mod c19;
 
@@ -23,6 +24,7 @@ pub fn all() -> Vec<Box<dyn Property>> {
         Box::new(c12::C12),
         Box::new(c13::C13),
         Box::new(c14::C14),
+        Box::new(c15::C15),
         Box::new(c16::C16),
         Box::new(c19::C19),
     ]
